@@ -29,6 +29,7 @@ func init() {
 func ruleR7parseDecodeUnique(c *Ctx) []Obligation {
 	r := pxDiscover(c)
 	info := r.info
+	alias := map[*types.Var]*types.Var{}
 	tokenOf := func(e ast.Expr) *types.Var { // any variable / field of the lexer's token type
 		var v *types.Var
 		switch x := ast.Unparen(e).(type) {
@@ -38,9 +39,57 @@ func ruleR7parseDecodeUnique(c *Ctx) []Obligation {
 			v, _ = info.Uses[x].(*types.Var)
 		}
 		if v != nil && types.Identical(v.Type(), r.tokenT) {
+			for i := 0; i < 4; i++ { // a local that only names another token variable (`number := self.PreviousToken`)
+				a, ok := alias[v]
+				if !ok || a == nil {
+					break
+				}
+				v = a
+			}
 			return v
 		}
 		return nil
+	}
+	// single-definition locals of the token type whose defining expression is itself a token variable
+	{
+		ndef := map[*types.Var]int{}
+		first := map[*types.Var]ast.Expr{}
+		for _, fd := range AllFuncDecls(r.pkg) {
+			ast.Inspect(fd.Body, func(n ast.Node) bool {
+				as, ok := n.(*ast.AssignStmt)
+				if !ok {
+					return true
+				}
+				for i, l := range as.Lhs {
+					li, ok := l.(*ast.Ident)
+					if !ok {
+						continue
+					}
+					o := info.Defs[li]
+					if o == nil {
+						o = info.Uses[li]
+					}
+					v, ok := o.(*types.Var)
+					if !ok || v.IsField() || !types.Identical(v.Type(), r.tokenT) {
+						continue
+					}
+					ndef[v]++
+					if len(as.Lhs) == len(as.Rhs) {
+						first[v] = as.Rhs[i]
+					} else {
+						first[v] = nil
+					}
+				}
+				return true
+			})
+		}
+		for v, n := range ndef {
+			if n == 1 && first[v] != nil {
+				if t := tokenOf(first[v]); t != nil && t != v {
+					alias[v] = t
+				}
+			}
+		}
 	}
 	kindOf := func(e ast.Expr) *types.Var { // self.<tok>.Kind -> tok
 		sel, ok := ast.Unparen(e).(*ast.SelectorExpr)
